@@ -319,13 +319,13 @@ func c14observers() []c14obs {
 // ---- exploration ---------------------------------------------------------------------------------
 
 type c14case struct {
-	History  []string `json:"history"`
-	Ops      []int    `json:"ops"`
-	ObsAt    []int    `json:"observer_positions"`
-	ObsKind  []int    `json:"observer_kinds"`
-	Want     string   `json:"want,omitempty"`
-	Got      string   `json:"got,omitempty"`
-	What     string   `json:"what"`
+	History []string `json:"history"`
+	Ops     []int    `json:"ops"`
+	ObsAt   []int    `json:"observer_positions"`
+	ObsKind []int    `json:"observer_kinds"`
+	Want    string   `json:"want,omitempty"`
+	Got     string   `json:"got,omitempty"`
+	What    string   `json:"what"`
 }
 
 // c14run replays ops with observers obsKind[i] executed BEFORE op index obsAt[i] (position len(ops)
